@@ -37,6 +37,10 @@ UGRID_VARIANTS = [
     dict(supplied={'face_face'}, coords_as_coords=False, fill='attr', start_index=1, nine_nodes=True),
     # edges implied by an edge_face table alone: no edge_dimension attribute, no edge_node table
     dict(supplied={'edge_face'}, coords_as_coords=False, fill='attr', start_index=0, edge_dim_declared=False, transposed=False),
+    # index bases mixed within one file (UGRID gives every table its own start_index; a missing attribute means 0): the face-node
+    # table one-based, the optional tables zero-based without the attribute
+    dict(supplied={'edge_node', 'face_face', 'edge_face'}, coords_as_coords=False, fill='attr', start_index=1,
+         bare_zero_based=('face_face', 'edge_node', 'edge_face')),
     dict(),
 ]
 
